@@ -248,10 +248,17 @@ def run_task(args):
                     else:
                         rec['replay_result'] = _jsonable(cl_res)
                         out['spurious'].append(rec)
-            if len(out['samples']) < SAMPLES_PER_TASK and nt:
+            if len(out['samples']) < SAMPLES_PER_TASK and nt and not todo:
                 if c.sat():
-                    out['samples'].append(dict(obligation=obname, params=params, inputs=core.model_values(c, c.model()),
-                                               path_decisions=len(c.trace), obs=_jsonable(_obs(res.obs))))
+                    vals = core.model_values(c, c.model())
+                    # translation check: the same inputs, run without any proxy, must satisfy every clause too
+                    cl_res, _ = replay(obname, params, vals)
+                    agrees = cl_res is not None and all(v is True for v in cl_res.values())
+                    out['samples'].append(dict(obligation=obname, params=params, inputs=vals, path_decisions=len(c.trace),
+                                               obs=_jsonable(_obs(res.obs)), concrete_replay_agrees=agrees))
+                    out['sample_replays'] = out.get('sample_replays', 0) + 1
+                    if not agrees:
+                        out['sample_mismatch'] = dict(inputs=vals, replay=_jsonable(cl_res))
             out['queries'] += c.queries
             out['solver_s'] += c.solver_s
             if len(out['violations']) + len(out['spurious']) >= MAX_VIOL_PER_TASK:
@@ -339,6 +346,7 @@ def main(argv=None):
     viol = [v for r in results for v in r['violations']]
     spur = [v for r in results for v in r['spurious']]
     inconc = [(r['obligation'], r['params'], r['inconclusive']) for r in results if r['inconclusive']]
+    inconc += [(r['obligation'], r['params'], 'symbolic path holds but its concrete replay does not: %s' % r['sample_mismatch']) for r in results if r.get('sample_mismatch')]
     inconc += [(r['obligation'], r['params'], 'cvc5 disagrees with z3 (sat vs unsat) on a deciding query over clauses %s' % d) for r in results for d in r['xdisagree']]
     known = {}
     for r in results:
@@ -433,6 +441,7 @@ def main(argv=None):
                                         solver_seconds=round(d['solver_s'], 2), cpu_wall_seconds=round(d['wall_s'], 2),
                                         verdict='violated' if d['violations'] else 'holds within bounds')
                                 for n, d in sorted(per_ob.items())},
+                sample_paths_replayed_concretely=sum(r.get('sample_replays', 0) for r in results),
                 functions_encoded=funcs,
                 repo_digest=_repo_digest(),
                 known_findings_matched=sorted(known),
